@@ -35,6 +35,7 @@ type hostileEv struct {
 	Detail       string `json:"detail"`
 	N            int    `json:"n"`
 	Req          string `json:"req"`
+	HostileStore bool   `json:"hostilestore"` // a tuple with malformed fields has been put into the store behind the API's back
 }
 
 var hostileStrings = []string{"", " ", ":", "#", "@", "*", "a:", ":a", "a:b:c", "a#b#c", "a:b#", "a:*#r", "doc:1#viewer@x", "\x00", "a\x00b", "\n", "‮", "😀:😀", "%s%n", "../../etc", "doc:" + strings.Repeat("x", 300),
@@ -108,6 +109,7 @@ func HostileChild() {
 		}
 		return s
 	}
+	hostileStored := false
 	for i := 0; i < n; i++ {
 		ev := &hostileEv{E: "Hostile", Deadline: deadline, Slack: 2000, N: i}
 		ctx, cancel := context.WithTimeout(bg, deadline*time.Millisecond)
@@ -214,8 +216,12 @@ func HostileChild() {
 		case 7:
 			ev.Kind = "stored hostile tuple + queries"
 			call = func() error {
-				_ = ds.Write(ctx, env.StoreID, nil, []*openfgav1.TupleKey{{Object: okStr("doc:1"), Relation: okStr("viewer"), User: okStr("user:a"),
-					Condition: &openfgav1.RelationshipCondition{Name: okStr("c1"), Context: hctx}}})
+				tk := &openfgav1.TupleKey{Object: okStr("doc:1"), Relation: okStr("viewer"), User: okStr("user:a"),
+					Condition: &openfgav1.RelationshipCondition{Name: okStr("c1"), Context: hctx}}
+				if werr := ds.Write(ctx, env.StoreID, nil, []*openfgav1.TupleKey{tk}); werr == nil && (tk.GetObject() != "doc:1" || tk.GetRelation() != "viewer" || tk.GetUser() != "user:a") {
+					hostileStored = true
+				}
+				ev.Req = reqStr(tk.GetObject(), tk.GetRelation(), tk.GetUser(), tk.GetCondition().GetName())
 				if _, err := s.Check(ctx, &openfgav1.CheckRequest{StoreId: env.StoreID, TupleKey: &openfgav1.CheckRequestTupleKey{Object: "doc:1", Relation: "viewer", User: "user:a"}}); err != nil {
 					return err
 				}
@@ -279,6 +285,7 @@ func HostileChild() {
 				ev.Outcome = "rejected"
 			}
 		}
+		ev.HostileStore = hostileStored
 		say("DONE", ev)
 	}
 	say("END", map[string]any{})
